@@ -169,3 +169,9 @@ func SameFunc(a, b any) bool { panic("verifspec: proof-only") }
 // SameMap reports whether two map values are the same map object (Go only allows comparing maps
 // with nil). Proof-only.
 func SameMap(a, b any) bool { panic("verifspec: proof-only") }
+
+// ForallOldMap quantifies over the map objects of type map[K]V that existed in the pre-state of the
+// enclosing contract. Proof-only.
+func ForallOldMap[K comparable, V any](body func(m map[K]V) bool) bool {
+	panic("verifspec: proof-only quantifier")
+}
